@@ -222,15 +222,16 @@ func init() {
 		return []Term{e}
 	}}
 	// wrap(err, ...): nil iff err nil, same root
-	wrapErr := model{pure: false, fn: func(fv *FuncVerifier, call *ast.CallExpr, args []Term, st *State) []Term {
-		in := args[0]
+	wrapAt := func(ix int) model { return model{pure: false, fn: func(fv *FuncVerifier, call *ast.CallExpr, args []Term, st *State) []Term {
+		in := args[ix]
 		if in.Sort == nil {
 			reject("error wrapper with unmodelled argument")
 		}
 		e := fv.u.freshConst("werr", &Sort{Name: "Int", Kind: KErr})
 		st.assume(mk(sortBool, "(and (= (= %s 0) (= %s 0)) (>= %s 0) (= (err_root %s) (err_root %s)))", e.S, in.S, e.S, e.S, in.S))
 		return []Term{e}
-	}}
+	}} }
+	wrapErr := wrapAt(0)
 	isErr := model{pure: true, fn: func(fv *FuncVerifier, call *ast.CallExpr, args []Term, st *State) []Term {
 		return []Term{errIs(args[0], args[1])}
 	}}
@@ -250,8 +251,14 @@ func init() {
 		"github.com/synnaxlabs/x/errors.Wrap":    wrapErr,
 		"github.com/synnaxlabs/x/errors.Wrapf":   wrapErr,
 		"github.com/synnaxlabs/x/errors.WithStack": wrapErr,
-		"github.com/synnaxlabs/alamos.Span.Error":  wrapErr,
-		"github.com/synnaxlabs/alamos.Span.EndWith": wrapErr,
+		"github.com/synnaxlabs/alamos.Span.Error":  wrapAt(1),
+		"github.com/synnaxlabs/alamos.Span.EndWith": wrapAt(1),
+		"github.com/synnaxlabs/x/errors.Combine": {pure: false, fn: func(fv *FuncVerifier, call *ast.CallExpr, args []Term, st *State) []Term {
+			a, b := args[0], args[1]
+			e := fv.u.freshConst("cerr", &Sort{Name: "Int", Kind: KErr})
+			st.assume(mk(sortBool, "(and (>= %s 0) (= (= %s 0) (and (= %s 0) (= %s 0))) (= (err_root %s) (ite (= %s 0) (err_root %s) (err_root %s))))", e.S, e.S, a.S, b.S, e.S, a.S, b.S, a.S))
+			return []Term{e}
+		}},
 		"errors.Is":                              isErr,
 		"github.com/synnaxlabs/x/errors.Is":      isErr,
 		"github.com/synnaxlabs/x/errors.Skip":    isErr,
